@@ -30,8 +30,8 @@ def model_check(ctx):
     ctx.cov["model_deviations_rejected"] = list(dict.fromkeys(devs))
 
 
-def gen(ctx, maxcmds, maxitems, setup, cmdmode, simulate=None, depth=None):
-    consts = dict(MaxCmds=maxcmds, MaxItems=maxitems, SetupMode=setup, CmdMode=cmdmode)
+def gen(ctx, maxcmds, maxitems, setup, cmdmode, simulate=None, depth=None, itemmode="all"):
+    consts = dict(MaxCmds=maxcmds, MaxItems=maxitems, SetupMode=setup, CmdMode=cmdmode, ItemMode=itemmode)
     if simulate:
         r = ctx.tlc("AdminGen", "AdminGen.cfg", workers=1, consts=consts, timeout=900,
                     simulate="num=%d" % simulate, args=["-depth", str(depth), "-seed", str(ctx.seed)])
@@ -47,7 +47,13 @@ def hkey(h):
     return json.dumps([h["cmds"], h["items"]], sort_keys=True)
 
 
-DEGENERATE = ("zero", "wrap", "neg", "missing", "empty")
+DEGENERATE = ("zero", "wrap", "neg", "missing", "empty", "emptyexp", "spacename", "dotsname", "longname")
+NAMECLASSES = ("emptyexp", "spacename", "dotsname", "longname")
+
+
+def sinkkind(c):
+    """kind of the route the degenerate names are sent to"""
+    return "gnet" if c["op"] == "addGnet" else ("pickle" if c.get("pk") else "plain")
 
 
 def stratum(h):
@@ -65,7 +71,7 @@ def build_cases(ctx):
     q = ctx.quick()
     cases, seen = [], set()
 
-    def add(hs, kind, per_stratum=None, limit=None, keep=lambda h: False):
+    def add(hs, kind, per_stratum=None, limit=None, keep=lambda h: False, stratum=stratum):
         """all histories with keep(h); of the rest at most per_stratum per stratum (seeded choice), at most limit"""
         rest = [h for h in hs if not keep(h)]
         rng.shuffle(rest)
@@ -100,7 +106,8 @@ def build_cases(ctx):
     mods = gen(ctx, 1, 0, "typical", "mods")
     mix["typical_then_modify"] = add(mods, "mods", 1 if q else None, ctx.pick(150, None),
                                      keep=lambda h: h["cmds"][0]["op"] in ("addRoute", "addAgg") and h["cmds"][1]["val"] == "typical"
-                                     and h["cmds"][1]["n"] == 0 and h["cmds"][1]["key"] in ("k1", "-"))
+                                     and h["cmds"][1]["n"] == 0 and h["cmds"][1]["key"] in ("k1", "-")
+                                     and not h["cmds"][0].get("pk"))
     if q:   # random typical prefixes, every command after each (simulation prints all successors of the walk)
         pairs = gen(ctx, 1, 0, "typical", "all", simulate=4, depth=2)
         pairs = [h for h in pairs if h["cmds"][-1]["opt"] == "none"]
@@ -114,11 +121,31 @@ def build_cases(ctx):
     if not q:
         items2 = gen(ctx, 0, 2, "empty", "none")
         mix["two_items"] = add(items2, "item2", None, 1000)
+    # a route whose destinations are connected (plain, pickle=true, grafanaNet), then a rewriter / aggregation that
+    # turns the names it matches into degenerate names (empty, white space, dots, very long), then traffic it matches.
+    # quick: every empty-expansion rule behind every pickle=true route, and one member of every
+    # (rule, via, name class, kind of route) stratum
+    names = gen(ctx, 1, 1, "routed", "names", itemmode="rule")
+    mix["route_then_degenerate_name_rule"] = add(
+        names, "names", 1 if q else None,
+        keep=lambda h: q and h["cmds"][0].get("pk") and h["cmds"][1]["val"] == "emptyexp" and h["items"][0]["proto"] == "plain",
+        stratum=lambda h: (h["cmds"][1]["op"], h["cmds"][1]["via"], h["cmds"][1]["val"], sinkkind(h["cmds"][0])))
     sims = ((4, 3, 30, 150),) if q else ((2, 1, 300, 500), (3, 2, 400, 600), (4, 3, 500, 800))
     for (mc, mi, num, lim) in sims:
         sim = gen(ctx, mc, mi, "empty", "all", simulate=num, depth=mc + mi + 1)
         mix["random_%dc%di" % (mc, mi)] = add(sim, "sim%d%d" % (mc, mi), None, lim)
     ctx.cov["history_mix"] = mix
+    # the degenerate-name histories wait for aggregation flushes: spread them over the child processes
+    slow = [c for c in cases if c["kind"] == "names"]
+    rest = [c for c in cases if c["kind"] != "names"]
+    if slow and rest:
+        step = max(1, len(rest) // len(slow))
+        out = []
+        for i, c in enumerate(rest):
+            out.append(c)
+            if i % step == step - 1 and slow:
+                out.append(slow.pop())
+        cases = out + slow
     return cases
 
 
@@ -134,7 +161,7 @@ def project(e):
         return dict(ev="apply", h=e["h"], cmd=e["cmd"], res=e["res"], routes=e["routes"], na=e["na"], nb=e["nb"], nw=e["nw"])
     if ev == "traffic":
         return dict(ev="traffic", h=e["h"], item=e["item"])
-    if ev in ("pump", "done", "hang", "crash"):
+    if ev in ("pump", "rulepump", "done", "hang", "crash"):
         return dict(ev=ev, h=e["h"])
     return None
 
@@ -154,7 +181,7 @@ def validate(ctx, recs, tag, crashmode=False):
 def describe(c):
     s = "%s/%s" % (c["op"], c["via"])
     if c["op"] in ("addRoute",):
-        s += "/%s/n=%d%s" % (c["rtype"], c["n"], "/spool" if c["flag"] else "")
+        s += "/%s/n=%d%s%s" % (c["rtype"], c["n"], "/spool" if c["flag"] else "", "/pickle" if c.get("pk") else "")
     if c["op"] in ("modDest", "delDest", "delAgg", "delBlack", "delRewriter"):
         s += "/idx=%d" % c["n"]
     return s + ":%s=%s" % (c["opt"], c["val"])
@@ -215,6 +242,29 @@ def run(ctx):
             raise Machinery("commands never accepted: %s" % (need - set(ops_acc)))
         if set(protos) != {"plain", "pickle", "udp", "amqp"}:
             raise Machinery("input protocols not all driven: %s" % protos)
+
+    # the degenerate names must really have flowed: some history sent an empty-name line (a rule of class emptyexp
+    # matched the traffic) to a connected pickle=true destination, which counted it (bad_pickle)
+    rps = [e for e in events if e["ev"] == "rulepump"]
+    emptied = [e for e in rps if e["pk"] and e["online"] and e["bad_pickle"] > 0 and any(r["val"] == "emptyexp" for r in e["rules"])]
+    aggd = [e for e in rps if e["agg_out"] > 0]
+    unreached = [e["h"] for e in rps if not e["reached"]]
+    ctx.cov["degenerate_name_histories"] = dict(
+        rule_traffic_pumped=len(rps), empty_name_to_connected_pickle_dest=len(emptied), aggregation_flushed=len(aggd),
+        not_handled_within_deadline=len(unreached),
+        by_class={k: sum(1 for e in rps if any(r["val"] == k for r in e["rules"])) for k in NAMECLASSES})
+    if not crashes_ev:
+        if not emptied:
+            raise Machinery("vacuous run: no history sent an empty-name line to a connected pickle=true destination "
+                            "(%d histories pumped rule-matching traffic)" % len(rps))
+        if not aggd:
+            raise Machinery("vacuous run: no degenerate-name aggregation was flushed into the table")
+        if len(unreached) > max(2, len(rps) // 5):
+            raise Machinery("%d of %d histories: the destinations did not deal with the rule-matching traffic within the "
+                            "deadline (overloaded machine?): %s" % (len(unreached), len(rps), unreached[:10]))
+    for h in unreached[:5]:
+        ctx.note("history %d: no destination counter moved for the rule-matching traffic within the deadline %s" % (
+            h, [describe(c) for c in cases[h]["cmds"]]))
 
     # TLC decides
     ok, matched, unsafe, _, tres = validate(ctx, recs, "strict")
@@ -300,8 +350,11 @@ def run(ctx):
     cov["unworkable_accepted_survived"] = len(survived)
     cov["rule"] = ("abstract histories enumerated by TLC from AdminOps.tla: every single command of the command space "
                    "(%d commands: op x via{cmd,toml,api} x one degenerate parameter x value class {missing, empty, zero, one, "
-                   "typical, huge, wrap, neg, nonnum, badregex}), a typical table-building command followed by every command, "
-                   "typical tables followed by every malformed-stream class (plain, pickle, UDP, AMQP), and TLC -simulate walks "
+                   "typical, huge, wrap, neg, nonnum, badregex, emptyexp, spacename, dotsname, longname}), a typical table-building command followed by every command, "
+                   "typical tables followed by every malformed-stream class (plain, pickle, UDP, AMQP), a connected route (plain / "
+                   "pickle=true destinations, grafanaNet) followed by every rewriter / aggregation whose result is a degenerate "
+                   "metric name (empty expansion, white space, dots only, very long) and by traffic that rule matches (the driver "
+                   "waits until the destinations counted it), and TLC -simulate walks "
                    "of up to 4 commands + 3 stream items (sampled per tier, see history_mix); each history is rendered to "
                    "concrete text/TOML/bytes with seeded random content inside the class and applied to a real table whose "
                    "destinations dial loopback listeners, followed by metric traffic, in a child process. Non-trivial = distinct "
